@@ -63,12 +63,15 @@ func main() {
 	if f.Replay != "" {
 		fmt.Println("replay: re-running the deterministic enumeration")
 	}
-	if f.Engine == "abandon" || f.Engine == "restart" {
+	if f.Engine == "abandon" || f.Engine == "restart" || f.Engine == "phases" || f.Engine == "queued" {
 		logrus.SetOutput(io.Discard)
-		if f.Engine == "abandon" {
+		switch f.Engine {
+		case "abandon":
 			engineAbandon(f, res)
-		} else {
+		case "restart":
 			engineRestart(f, res)
+		default:
+			enginePhasesQueued(f, res)
 		}
 		if f.Replay != "" {
 			for _, x := range res.Findings {
